@@ -74,7 +74,7 @@ def guard_placement(run, f, lc):
     ysp = None
     if len(polls) == 1:
         ps = b.blocks[polls[0]].term.get("layout_span", b.blocks[polls[0]].term["span"])
-        vs = [v for v in b.layout["variants"] if v["span"] == ps]
+        vs = b.layout_variants_at(b.blocks[polls[0]].term)
         if len(vs) == 1:
             ysp = ps
             for i in vs[0]["fields"]:
